@@ -16,6 +16,9 @@ SPEC = VERIF / "spec"
 WORK = VERIF / ".work"
 EVID = VERIF / "evidence"
 REPLAYS = VERIF / "replays"
+# light mode: a child run of the environment sweep - no design models, no TLC-generated inputs, a sample of the
+# inputs, no evidence file (the parent writes it)
+LIGHT = os.environ.get("VERIF_LIGHT") == "1"
 REPO = os.environ.get("VERIF_REPO", "/repo")
 if os.path.realpath(REPO) != "/repo":
     # a run against a scratch copy (seeded changes): its evidence and replays never replace those of /repo
@@ -283,7 +286,12 @@ def load_findings():
 
 # ---------------------------------------------------------------- evidence and result reporting
 
+SWEEP = []      # filled by the driver: what the environment sweep of this run covered
+
+
 def write_evidence(pid, tier, coverage, wall, violations, assumptions=()):
+    if LIGHT:
+        return
     EVID.mkdir(parents=True, exist_ok=True)
     cov = dict(coverage)
     cov.setdefault("states", 1)
